@@ -235,7 +235,10 @@ class Program(object):
             if isinstance(argument, ListArgument):
                 return "[{}]".format(
                     ", ".join(
-                        serialize_value(x, argument, command) for x in argument.value
+                        serialize_argument(x, command)
+                        if isinstance(x, ListArgument)
+                        else serialize_value(x, argument, command)
+                        for x in argument.value
                     )
                 )
             elif isinstance(argument.value, dict):
